@@ -394,6 +394,64 @@ func checkClusterNodesParser(c *Ctx, rule string) {
 		c.Check(ok, rule, fmt.Sprintf("CLUSTER NODES field %d", k), fn.Pos(), fmt.Sprintf("field %d is used as %s", k, got), fmt.Sprintf("field %d of a CLUSTER NODES line is used as %q, the format has %v there: node id, address or master id are taken from the wrong column", k, got, roles))
 	}
 	c.Check(slotArgLow == 8, rule, "slots start at field 8", fn.Pos(), "fields[8:]", fmt.Sprintf("slots are parsed from field %d on; the CLUSTER NODES format lists them from field 8", slotArgLow))
+	// which line lengths are rejected: a CLUSTER NODES line has 8 mandatory fields; the slot columns are optional - a
+	// master that owns no slot (a node that has just joined, a drained or failed-over master) has exactly 8
+	badLen, badAt := int64(-1), token.NoPos
+	eachInstr(fn, func(_ *ssa.BasicBlock, _ int, in ssa.Instruction) {
+		bo, ok := in.(*ssa.BinOp)
+		if !ok {
+			return
+		}
+		lc, ok := bo.X.(*ssa.Call)
+		if !ok || !isBuiltin(lc, "len") || lc.Call.Args[0] != fields {
+			return
+		}
+		k, isC := constInt(bo.Y)
+		if !isC {
+			return
+		}
+		// the edge of this comparison that leads (only) to an error return
+		for _, r := range *bo.Referrers() {
+			iff, ok := r.(*ssa.If)
+			if !ok {
+				continue
+			}
+			for side, succ := range iff.Block().Succs {
+				rejects := false
+				if len(succ.Preds) == 1 {
+					if ret, ok := succ.Instrs[len(succ.Instrs)-1].(*ssa.Return); ok && len(ret.Results) == 2 && !isNilConst(ret.Results[1]) {
+						rejects = true
+					}
+				}
+				if !rejects {
+					continue
+				}
+				for L := int64(1); L <= 12; L++ {
+					var v bool
+					switch bo.Op {
+					case token.LSS:
+						v = L < k
+					case token.LEQ:
+						v = L <= k
+					case token.GTR:
+						v = L > k
+					case token.GEQ:
+						v = L >= k
+					case token.EQL:
+						v = L == k
+					case token.NEQ:
+						v = L != k
+					default:
+						continue
+					}
+					if (side == 0) == v && L >= 8 && badLen < 0 {
+						badLen, badAt = L, bo.Pos()
+					}
+				}
+			}
+		}
+	})
+	c.Check(badLen < 0, rule, "only lines shorter than the 8 mandatory fields are rejected", badAt, "no length test rejects a line with 8 or more fields", fmt.Sprintf("a line with %d fields is rejected: a master that owns no slots (a node that has just joined, a drained or failed-over master) has exactly 8 fields, and the error fails the whole refresh - the routing table is never loaded or updated while such a node exists", badLen))
 	// only master lines get slots: the call to the slot parser is dominated by field3 == "-"
 	var slotCall *ssa.Call
 	eachInstr(fn, func(_ *ssa.BasicBlock, _ int, in ssa.Instruction) {
